@@ -742,6 +742,8 @@ def _list_method(ex, obj, name, args, kwargs, node):
     args = [VInt(0)]
     name = 'pop'
   if name == 'pop':
+    if len(args) == 1 and isinstance(args[0], VInt) and args[0].concrete() == -1:
+      args = []                    # lst.pop(-1) is lst.pop()
     if not args:
       if not ex.path.decide(obj.len > 0):
         ex.py_raise('IndexError', node)
